@@ -446,7 +446,11 @@ func gen(t *rapid.T) Scenario {
 		var tok []byte
 		for tries := 0; ; tries++ {
 			l := rapid.IntRange(1, 8).Draw(t, "toklen")
-			switch rapid.IntRange(0, 2).Draw(t, "tokfam") {
+			switch rapid.IntRange(0, 4).Draw(t, "tokfam") {
+			case 3: // leading zero padding: equal as big-endian numbers, different as tokens
+				tok = append(bytes.Repeat([]byte{0x00}, l-1), 0x2A)
+			case 4: // all zero, different lengths
+				tok = bytes.Repeat([]byte{0x00}, l)
 			case 0: // same bytes, different length
 				tok = bytes.Repeat([]byte{0xC3}, l)
 			case 1: // shared prefix, last byte differs
@@ -566,7 +570,7 @@ func TestCheck(t *testing.T) {
 		return f
 	})
 	r.Main(evid.Meta{
-		Rule:        "a client connection (datagram and stream, block-wise on/off) in a synctest bubble; 1-8 callers issue GETs concurrently with caller-chosen tokens of 1-8 bytes from families built to collide as far as tokens can (same bytes at different lengths, shared prefixes, zero padding), NSTART and the parallel-request limits either high (true concurrency) or at the library defaults (serialised); the scripted peer answers the collected requests in a generated permutation, each in a generated style (piggy-backed, empty ACK then separate CON/NON response, response before its ACK, delayed, duplicated with the same or a fresh message ID), and injects stray responses whose tokens are unknown, proper prefixes or extensions of outstanding ones; optionally a second request re-uses a token that is still outstanding; with block-wise on, a quarter of the answers are bodies of 2-6 blocks the client has to fetch block by block with the same token (on streams the peer's CSM announces block-wise transfer). Oracle: every successful call returns its own token and the payload the peer produced for that request (payload = f(request index, token)); a call the peer answered succeeds; of two simultaneous calls with one token exactly one gets the response and the other is refused; every call returns by its deadline. real: 2-6 concurrent callers with own tokens over UDP, DTLS-PSK, TCP and TLS loopback sockets against the library's own server, whose handler holds every request and answers in a generated order, some with bodies that need block-wise transfer. Non-trivial = >= 2 requests outstanding at once and (answer order != request order, or a non-piggy-backed/duplicated style, or a duplicate token); distinct by scenario",
+		Rule:        "a client connection (datagram and stream, block-wise on/off) in a synctest bubble; 1-8 callers issue GETs concurrently with caller-chosen tokens of 1-8 bytes from families built to collide as far as tokens can (same bytes at different lengths, shared prefixes, leading and trailing zero padding, all-zero tokens), NSTART and the parallel-request limits either high (true concurrency) or at the library defaults (serialised); the scripted peer answers the collected requests in a generated permutation, each in a generated style (piggy-backed, empty ACK then separate CON/NON response, response before its ACK, delayed, duplicated with the same or a fresh message ID), and injects stray responses whose tokens are unknown, proper prefixes or extensions of outstanding ones; optionally a second request re-uses a token that is still outstanding; with block-wise on, a quarter of the answers are bodies of 2-6 blocks the client has to fetch block by block with the same token (on streams the peer's CSM announces block-wise transfer). Oracle: every successful call returns its own token and the payload the peer produced for that request (payload = f(request index, token)); a call the peer answered succeeds; of two simultaneous calls with one token exactly one gets the response and the other is refused; every call returns by its deadline. real: 2-6 concurrent callers with own tokens over UDP, DTLS-PSK, TCP and TLS loopback sockets against the library's own server, whose handler holds every request and answers in a generated order, some with bodies that need block-wise transfer. Non-trivial = >= 2 requests outstanding at once and (answer order != request order, or a non-piggy-backed/duplicated style, or a duplicate token); distinct by scenario",
 		Assumptions: []string{"token re-use after completion and responses for timed-out requests are outside the statement and not generated", "CRC-64 collisions between different tokens (the tables are keyed by Token.Hash()) are not constructed", "the real engine runs the same oracle over UDP, DTLS-PSK, TCP and TLS loopback sockets against the library's own servers (real time; a failure counts only if it reproduces three times in a row)"},
 		Floor:       300,
 	}, eng, realEngine())
